@@ -76,7 +76,7 @@ ASSUMPTIONS = ["process death only (SIGKILL / crash): everything written with wr
 REACH = ["crash_points", "crash_inside_schema_script", "crash_between_insert_and_commit", "crash_after_ack",
          "crash_after_commit", "crash_after_close", "wal_present_at_crash", "shm_present_at_crash", "reopen_cycles",
          "second_crash_during_recovery", "inflight_record_visible", "inflight_record_absent", "overflow_row",
-         "batch_committed", "batch_left_by_error", "batch_left_by_ignorecommits",
+         "batch_committed", "batch_left_by_error", "batch_left_by_ignorecommits", "stored_token_offered_again_without_content",
          "crash_before_first_page_written"]
 SHRINK_FIELDS = ("ops",)
 
@@ -295,7 +295,7 @@ def _flat(ops: list) -> list:
 def _uses(ops: list) -> tuple[bool, bool]:
     ops = _flat(ops)
     ops = ops + [{"op": "read", "db": o.get("db")} for o in ops if o.get("op") == "batch"]
-    uid = any(o.get("op") in ("cred", "attest", "recred") or (o.get("op") in ("reopen", "read") and o.get("db") == "id")
+    uid = any(o.get("op") in ("cred", "attest", "recred", "retoken") or (o.get("op") in ("reopen", "read") and o.get("db") == "id")
               for o in ops)
     uw = any(o.get("op") == "blob" or (o.get("op") in ("reopen", "read") and o.get("db") == "wallet") for o in ops)
     return uid, uw
@@ -432,6 +432,20 @@ class _Runner:
             self.wallet.insert_attestation(_StubAttestation(_bytes(f"blob/{bid}", int(op.get("size", 100)))),
                                            hashlib.sha1(f"blob/{bid}".encode()).digest(),  # noqa: S324
                                            _StubSecretKey(_bytes(f"sk/{bid}", int(op.get("ksize", 300)))), "id_metadata")
+        elif kind == "retoken":
+            # a token that is already stored (with its content) is seen again in its public, content-less form (as it arrives in
+            # somebody's disclosure) and handed to the database once more: INSERT OR IGNORE must leave the stored record alone.
+            # Called past the recording wrapper: it offers no new record.
+            from ipv8.attestation.tokentree.token import Token
+            p = op.get("p", 0) % N_PSEUDONYMS
+            ent = self.creds.get((p, op.get("cred")))
+            if ent is None:
+                return
+            ps = self.pseudonym(p)
+            bare = Token.unserialize(ent[0].get_plaintext_signed(), ps.public_key)
+            db = self.mgr.database
+            type(db).insert_token(db, ps.public_key, bare)
+            self.retokens = getattr(self, "retokens", 0) + 1
         elif kind == "batch":
             # the library's batching API: ``with database:`` defers the commits of the inserts made inside the block.
             # end "ok": block left normally (one commit); "error": an application error leaves the block and is handled by the
@@ -908,6 +922,8 @@ def _run_inproc(c, case: dict, tmp: str, keys: list, tag: str = "w"):  # noqa: A
         c.probe("reopen_cycles", runner.reopens)
     if runner.overflow:
         c.probe("overflow_row", runner.overflow)
+    if getattr(runner, "retokens", 0):
+        c.probe("stored_token_offered_again_without_content", runner.retokens)
     for end, probe in (("ok", "batch_committed"), ("error", "batch_left_by_error"), ("ignore", "batch_left_by_ignorecommits")):
         if runner.batches.get(end):
             c.probe(probe, runner.batches[end])
@@ -1237,6 +1253,9 @@ def _scripted() -> list:
                      {"op": "batch", "db": "id", "end": "ignore", "inner": [cred(5, 4)]}, cred(6, 4),
                      {"op": "batch", "db": "wallet", "end": "ok", "inner": [{"op": "blob", "id": 3, "size": 90}, {"op": "blob", "id": 4, "size": 9000}]},
                      {"op": "read", "db": "id"}]),
+        ("content_then_bare_token", [cred(1, None, 0, 24, 300), cred(2, 1, 0, 24, 5000), {"op": "retoken", "p": 0, "cred": 1},
+                                     {"op": "retoken", "p": 0, "cred": 2}, cred(3, 2), {"op": "retoken", "p": 0, "cred": 3},
+                                     {"op": "read", "db": "id"}]),
         ("reopen_storm", [cred(1), {"op": "reopen", "db": "id"}, {"op": "reopen", "db": "id"}, cred(2, 1),
                           {"op": "reopen", "db": "id"}, {"op": "read", "db": "id"}, {"op": "blob", "id": 1, "size": 10},
                           {"op": "reopen", "db": "wallet"}, {"op": "reopen", "db": "wallet"}]),
@@ -1251,7 +1270,7 @@ def _random_case(seed: int) -> dict:
     attested: set = set()
     nblob = 0
     for _ in range(n):
-        kind = rng.choices(["cred", "attest", "recred", "blob", "reopen", "read"], [40, 14, 5, 20, 13, 8])[0]
+        kind = rng.choices(["cred", "attest", "recred", "blob", "reopen", "read", "retoken"], [40, 14, 5, 20, 13, 8, 6])[0]
         if kind == "cred":
             p = rng.choice([0, 0, 1])
             cid = len(creds[p]) + 1
@@ -1267,12 +1286,12 @@ def _random_case(seed: int) -> dict:
             p, cid = rng.choice(cands)
             attested.add((p, cid))
             ops.append({"op": "attest", "p": p, "cred": cid, "auth": rng.randrange(N_AUTHORITIES)})
-        elif kind == "recred":
+        elif kind in ("recred", "retoken"):
             cands = [(p, cid) for p in creds for cid in creds[p]]
             if not cands:
                 continue
             p, cid = rng.choice(cands)
-            ops.append({"op": "recred", "p": p, "cred": cid})
+            ops.append({"op": kind, "p": p, "cred": cid})
         elif kind == "blob":
             nblob += 1
             ops.append({"op": "blob", "id": nblob, "size": rng.choice([10, 200, 3000, 9000, 40000]),
